@@ -1,4 +1,4 @@
 (* ExtractConc.v — extraction of the concurrent model (ExtrOcamlBasic only). *)
 From Coq Require Import ExtrOcamlBasic ZArith.
 From GB Require Import Instances InstancesConc.
-Extraction "gbconc.ml" c_cstep c_target c_path_of c_holder c_init c_enabled c_unfinished c_erase c_leaf_links add_cb h_inv_b c_gi_b c_gi_full_b c_all_pc_ok_b c_occ_ok_b c_all_pc_ok2_b c_abs c_lp_step c_step_spec c_all_pc_ok3_b.
+Extraction "gbconc.ml" c_cstep c_target c_path_of c_holder c_init c_enabled c_unfinished c_erase c_leaf_links add_cb h_inv_b c_gi_b c_gi_full_b c_all_pc_ok_b c_occ_ok_b c_all_pc_ok2_b c_abs c_lp_step c_step_spec c_all_pc_ok3_b c_nogap_b c_scan_lo_b.
